@@ -1,6 +1,7 @@
 package main
 
 import (
+	"regexp"
 	"bytes"
 	"context"
 	"fmt"
@@ -27,6 +28,8 @@ type solverSpec struct {
 	rewrite func(s string) string
 }
 
+var cvc5Rename = regexp.MustCompile(`\bstr\.([A-Za-z_]+)`)
+
 var solvers = []solverSpec{
 	{
 		name: "z3-new",
@@ -46,8 +49,10 @@ var solvers = []solverSpec{
 			return []string{"cvc5", "--lang=smt2", fmt.Sprintf("--tlimit=%d", t*1000), f}
 		},
 		rewrite: func(s string) string {
-			// cvc5 needs a logic; ALL covers quantifiers + datatypes + arrays + ints.
-			return "(set-logic ALL)\n" + s
+			// cvc5 needs a logic; ALL covers quantifiers + datatypes + arrays + ints. ALL also brings in the
+			// theory of strings, whose symbols the prelude's own (uninterpreted) string vocabulary would shadow
+			// (cvc5 rejects the file): the prelude's symbols are renamed for this solver.
+			return "(set-logic ALL)\n" + cvc5Rename.ReplaceAllString(s, "gstr.$1")
 		},
 	},
 }
